@@ -229,7 +229,7 @@ func execSquashBuild(t *core.Trace, prop string) *core.Result {
 	fo := squashfs.FinalizeOptions{}
 	switch comp {
 	case 1:
-		fo.Compression = &squashfs.CompressorGzip{}
+		fo.Compression = &squashfs.CompressorGzip{CompressionLevel: []uint32{1, 6, 9}[uint64(t.I("tag"))%3]} // (level 0, the zero value, would store everything uncompressed)
 	case 2:
 		fo.Compression = &squashfs.CompressorXz{}
 	case 3:
